@@ -165,3 +165,18 @@ claim("C06", "other",
       "flag-folded abstract interpretation; whole-term comparison of per-pair kernels and final columns in exact algebra "
       "(R-SIB, R-ALG); loop-domain / slot / count rules (R-LOOPDOM); constructor flag table (R-PBC); handle typestate (R-HANDLE)",
       "DESIGN.md section 4, C06")
+
+claim("C04", "other",
+      "Decides for sq.unary..quinary and every input: per-particle routing (type t feeds exactly 'all' and 'tt', K=2..5, "
+      "accumulators reset every frame); phase factor exp(-i q.r) with q.r summed over axes of the current frame's particle; each "
+      "of the 39 columns accumulates Re(acc[aa] conj(acc[bb])) with keys matching its name, once per frame after the particle "
+      "sum; the 39 normalisations T N, T N_a, T sqrt(N_a N_b) with indices matching names; q = integer vector x 2 pi/L axis "
+      "by axis and |q| row norm, for explicit and default vectors; numofq = int(2 qrange/min(2 pi/L)); round(6) before the "
+      "group-by-|q| mean; default generator: same half-open range on every axis, integer-norm predicate over all components, "
+      "index advance, capacity, zero/unused rows removed, onlypositive bool vs axis strings and its >= 0 comparator; dispatch on "
+      "K; CSV = returned frame. The sum rule N S = sum N_a S_aa + 2 sum sqrt(N_a N_b) S_ab follows from routing + products + "
+      "normalisations in exact arithmetic. Not decided: numerical values, pandas groupby semantics.",
+      "Trusted: numpy exp/sum/norm and pandas round/groupby semantics; idiom tables in pmsa/checks/c04.py.",
+      "guard-chain decision table over type ids (R-ROUTE), statement parsing of products and exact algebra of normalisations "
+      "(R-ALG), ordering rule on the return term (R-ORDER), loop-nest rules for the wave-vector generator (R-LOOPDOM, R-CMP)",
+      "DESIGN.md section 4, C04")
